@@ -280,6 +280,11 @@ def run_conc_nick(prop, tier, seed, harness, workdir, T):
     a transfer that is not whole"""
     return run_conc(prop, tier, seed, harness, workdir, T, kinds=(0, 14, 15))
 
+def run_conc_chan(prop, tier, seed, harness, workdir, T):
+    """C09 under concurrency: the issuer's rank and membership change (KICK, -o, +t, +i by others) while his TOPIC / INVITE / KICK
+    are on their way behind an operator login that holds the state lock; churn on an invite-only channel"""
+    return run_conc(prop, tier, seed, harness, workdir, T, kinds=(16, 16, 12))
+
 def run_conc(prop, tier, seed, harness, workdir, T, kinds=None):
     from lincheck import lin_validate
     out = {"tool_errors": [], "violations": [], "coverage": {}}
@@ -541,6 +546,9 @@ def run_shapes(prop, tier, seed, harness, workdir, T):
         "member": by + reg(C, "carol", "u3") + [st(A, "JOIN", ["#one"]), st(C, "JOIN", ["#one"]), st(A, "MODE", ["#one"], ["+b", "*!*@*.very.long.host.example.org"])],
         "founder": by + reg(C, "carol", "u3") + [st(C, "JOIN", ["#one"]), st(A, "JOIN", ["#one"]), st(C, "MODE", ["#one"], ["+h", "alice"])],
         "oper": by + reg(C, "carol", "u3") + [st(C, "OPER", ["god"], ["godpass"]), st(C, "JOIN", ["#one"])],
+        "halfop": by + reg(C, "carol", "u3") + [st(A, "JOIN", ["#one"]), st(B, "JOIN", ["#one"]), st(C, "JOIN", ["#one"]), st(A, "MODE", ["#one"], ["+h", "carol"])],
+        "chanop": by + reg(C, "carol", "u3") + [st(A, "JOIN", ["#one"]), st(B, "JOIN", ["#one"]), st(C, "JOIN", ["#one"]), st(A, "MODE", ["#one"], ["+o", "carol"])],
+        "protected": by + reg(C, "carol", "u3") + [st(A, "JOIN", ["#one"]), st(B, "JOIN", ["#one"]), st(C, "JOIN", ["#one"]), st(A, "MODE", ["#one"], ["+a", "carol"])],
         "lastmember": by + reg(C, "carol", "u3") + [st(C, "JOIN", ["#one"]), st(C, "MODE", ["#one"], ["-o", "carol"])],
     }
     cfg = {"operators": [{"name": "god", "pass": "godpass"}], "max_joins": [20]}
@@ -570,6 +578,83 @@ def run_shapes(prop, tier, seed, harness, workdir, T):
                                      "classes; effect-based oracle (connection stays open and registered, nobody else closed, invariants hold, bystander probes validated)",
                        "samples": [{"raw_line": lines[len(lines) // 3]}]}
     return out
+
+# ---- long histories: what only shows after many sessions, renames, re-creations (the models are bounded in depth) ----
+def history_behaviours():
+    A, B, C, D, E = "127.0.0.1", "127.0.0.2", "127.0.0.3", "127.0.0.4", "127.0.0.5"
+    def st(c, verb, *p): return {"c": c, "cmd": {"verb": verb, "p": [list(x) for x in p]}}
+    def reg(c, n, u, real="Real"): return [st(c, "!open"), st(c, "NICK", [n]), st(c, "USER", [u], [real])]
+    cfg = {"operators": [{"name": "god", "pass": "godpass"}]}
+    out = []
+    def beh(name, steps, cfg_=None): out.append({"id": "hist-" + name, "cfg": cfg_ or cfg, "steps": steps})
+    # one nickname, twelve sessions from changing addresses, ending in every way; the records of all of them are kept
+    steps = reg(A, "alice", "u1") + [st(A, "OPER", ["god"], ["godpass"]), st(A, "JOIN", ["#one"])]
+    ends = ["QUIT", "!close", "!rst", "KILL"]
+    for k in range(12):
+        c = [B, C, D, E][k % 4]
+        steps += reg(c, "dizzy", "d%d" % k, "Dizzy %d" % k) + [st(c, "JOIN", ["#one"]), st(c, "MODE", ["dizzy"], ["+iw"])]
+        e = ends[k % 4]
+        steps += [st(A, "KILL", ["dizzy"], ["bye %d" % k])] if e == "KILL" else [st(c, e)]
+        steps += [st(A, "WHOWAS", ["dizzy"]), st(A, "WHOWAS", ["dizzy"], ["1"]), st(A, "LUSERS"), st(A, "ISON", ["dizzy"]), st(A, "NAMES", ["#one"]), st(A, "WALLOPS", ["anybody"])]
+    beh("sessions", steps)
+    # a user renames back and forth with a rank, modes and away state; lists and views after every change
+    steps = reg(A, "alice", "u1") + reg(B, "bob", "u2") + reg(C, "carol", "u3") + \
+            [st(A, "JOIN", ["#one"]), st(B, "JOIN", ["#one"]), st(C, "JOIN", ["#one"]), st(A, "MODE", ["#one"], ["+v", "bob"]), st(A, "MODE", ["#one"], ["+h", "carol"]),
+             st(B, "MODE", ["bob"], ["+w"]), st(B, "AWAY", ["first text"])]
+    for k in range(8):
+        n = ["bobby", "bob"][k % 2]
+        steps += [st(B, "NICK", [n]), st(A, "MODE", ["#one"]), st(A, "NAMES", ["#one"]), st(A, "WHOWAS", ["bob"]), st(A, "WHOWAS", ["bobby"], ["2"]),
+                  st(B, "AWAY", ["text %d" % k]), st(A, "PRIVMSG", [n], ["are you there"]), st(C, "NICK", ["carol%d" % k]), st(A, "MODE", ["#one"])]
+    steps += [st(A, "MODE", ["#one"], ["-v", "bob"]), st(A, "MODE", ["#one"]), st(B, "QUIT"), st(D, "!open"), st(D, "NICK", ["bobby"]), st(D, "USER", ["u4"], ["R"]), st(D, "JOIN", ["#one"]), st(A, "MODE", ["#one"]), st(A, "NAMES", ["#one"])]
+    beh("renames", steps)
+    # a channel is created, restricted, emptied and re-created again and again: nothing survives
+    steps = reg(A, "alice", "u1") + reg(B, "bob", "u2") + reg(C, "carol", "u3")
+    for k in range(8):
+        steps += [st(B, "JOIN", ["#tmp"]), st(B, "MODE", ["#tmp"], ["+k", "key%d" % k]), st(B, "MODE", ["#tmp"], ["+l", "1"]), st(B, "MODE", ["#tmp"], ["+b", "carol"]),
+                  st(B, "TOPIC", ["#tmp"], ["topic %d" % k]), st(B, "INVITE", ["alice"], ["#tmp"]), st(C, "JOIN", ["#tmp"]),
+                  st(B, ["PART", "QUIT", "PART", "!close"][k % 4]) if k % 2 == 0 else st(B, "PART", ["#tmp"])]
+        if k % 2 == 0:
+            steps[-1] = st(B, "PART", ["#tmp"]) if k % 4 == 0 else st(B, "KICK", ["#tmp"], ["bob"])
+        steps += [st(A, "LIST"), st(C, "JOIN", ["#tmp"]), st(C, "MODE", ["#tmp"]), st(C, "TOPIC", ["#tmp"]), st(A, "JOIN", ["#tmp"]), st(A, "PART", ["#tmp"]), st(C, "PART", ["#tmp"]), st(A, "LUSERS")]
+    beh("recreate", steps)
+    # many channels at once: forty joined and left in one command each
+    many = ["#c%d" % k for k in range(40)]
+    steps = reg(A, "alice", "u1") + reg(B, "bob", "u2") + [st(B, "JOIN", many[:20]), st(A, "JOIN", many), st(A, "NAMES"), st(A, "LUSERS"), st(B, "LIST"), st(A, "PART", many), st(A, "PING", ["done"]),
+             st(A, "LUSERS"), st(B, "PART", many[:20], ["bye"]), st(A, "LIST"), st(A, "LUSERS")]
+    beh("many", steps)
+    # the joins quota at its boundary: a refused JOIN creates nothing, and room made is room
+    qcfg = dict(cfg, max_joins=[3])
+    steps = reg(A, "alice", "u1") + reg(B, "bob", "u2") + [st(B, "JOIN", ["#a"]), st(B, "JOIN", ["#b", "#c"]), st(B, "JOIN", ["#overflow"]), st(A, "LIST"), st(A, "NAMES", ["#overflow"]),
+             st(B, "JOIN", ["#d", "#a", "#e"]), st(B, "PART", ["#a"]), st(B, "JOIN", ["#overflow"]), st(A, "LIST"), st(B, "QUIT"), st(A, "LIST"), st(A, "LUSERS"),
+             st(C, "!open"), st(C, "NICK", ["bob"]), st(C, "USER", ["u3"], ["R"]), st(C, "JOIN", ["#overflow"]), st(C, "NAMES", ["#overflow"])]
+    beh("quota", steps, qcfg)
+    # counters over a long run of arrivals, mode changes, operator logins and departures
+    steps = reg(A, "alice", "u1") + [st(A, "OPER", ["god"], ["godpass"])]
+    for k in range(10):
+        c = [B, C, D, E][k % 4]
+        steps += reg(c, "u%dser" % k, "n%d" % k) + [st(c, "MODE", ["u%dser" % k], ["+i"]), st(c, "OPER", ["god"], ["godpass"]), st(c, "OPER", ["god"], ["godpass"]),
+                  st(c, "MODE", ["u%dser" % k], ["-i+i-o"]), st(A, "LUSERS"), st(c, ["QUIT", "!rst", "!close"][k % 3]) if k % 4 else st(A, "KILL", ["u%dser" % k], ["x"]), st(A, "LUSERS"),
+                  st(A, "USERHOST", ["u%dser" % k, "alice"])]
+    beh("counters", steps)
+    return out
+
+def run_history(prop, harness, workdir, T):
+    import pipeline
+    res = {"tool_errors": [], "violations": [], "n": 0, "samples": []}
+    behs = history_behaviours()
+    bf = os.path.join(workdir, "hist.beh.ndjson")
+    with open(bf, "w", encoding="utf-8") as f:
+        for b in behs: f.write(json.dumps(b, ensure_ascii=False) + "\n")
+    recs = pipeline.replay(harness, bf, os.path.join(workdir, "hist"), shards=len(behs))
+    mism, skipped, pi, n, errs = pipeline.validate(recs, parallel=len(behs))
+    for e in errs: res["tool_errors"].append("trace validation error in %s:\n%s" % e)
+    for x in pi: res["tool_errors"].append("path issue in a long history: " + json.dumps(x)[:300])
+    for m in mism:
+        m["kind"] = "seq"; m["behaviours"] = bf
+        if prop in m.get("owners", []): res["violations"].append(m)
+    res["n"] = n
+    res["samples"] = [{"long_history": b["id"], "steps": len(b["steps"])} for b in behs]
+    return res
 
 # ---- stalled receivers (C06 "unread output pending", C01 "every drain order", C05 "nobody else is stalled") ----
 def stall_behaviours():
